@@ -14,8 +14,11 @@ Cls == CASE last.op = "new" -> (IF SignUniform(last.d) THEN "uniform" ELSE "mixe
          [] last.op = "round" -> last.o.sm \o "/" \o last.o.lg \o "/" \o last.out.kind
          [] last.op = "total" -> last.u \o "/" \o last.out.kind
          [] OTHER -> "-"
+Nz == "nz" \in DOMAIN last
 CaseOf ==
-  CASE last.op = "new" -> [op |-> "Duration.new", cls |-> Cls, args |-> [dur |-> last.d], out |-> last.out]
+  CASE last.op = "new" /\ Nz -> [op |-> "Duration.new", cls |-> Cls \o "/negative-zero", args |-> [dur |-> last.d, nz |-> TRUE], out |-> last.out]
+    [] last.op \in {"negated", "abs", "sign"} /\ Nz -> [op |-> "Duration." \o last.op, cls |-> Cls \o "/negative-zero", args |-> [recv |-> last.a, nz |-> TRUE], out |-> last.out]
+    [] last.op = "new" -> [op |-> "Duration.new", cls |-> Cls, args |-> [dur |-> last.d], out |-> last.out]
     [] last.op = "fromDayAndTime" -> [op |-> "Duration.fromDayAndTime", cls |-> Cls, args |-> [dur |-> last.d], out |-> last.out]
     [] last.op = "fromPartial" -> [op |-> "Duration.fromPartial", cls |-> Cls, args |-> [p |-> last.p], out |-> last.out]
     [] last.op = "timeInRange" -> [op |-> "Duration.timeInRange", cls |-> IF last.out.val THEN "balanced" ELSE "unbalanced", args |-> [recv |-> last.a], out |-> last.out]
